@@ -125,7 +125,7 @@ pub fn gen_from_seed(gseed: u64, with_bug: bool, r: &mut Rng, scale: usize) -> B
                 "many-frames-high-layer" => *r.pick(&[2usize, 20]),
                 "many-tags" => *r.pick(&[10usize, 1000]),
                 "deflate-bomb" => 1,
-                "link-chain" => *r.pick(&[3usize, 4, 5, 6, 40, 41, 700, 702]),
+                "link-chain" => *r.pick(&[6usize, 7, 8, 9, 10, 11, 40, 41, 42, 43, 46, 47, 700, 702]),
                 "many-palette-packets" => *r.pick(&[3usize, 300, 2000]),
                 "bomb-with-links" => *r.pick(&[1usize, 2]),
                 _ => 1,
@@ -323,6 +323,9 @@ pub fn make_job(ctx: &Ctx, prop: &str, id: u64) -> Job {
                         base = with_unknown_last_chunk(base, &mut r);
                     } else if id % 389 == 33 {
                         base = many_chunks_last_frame(seed);
+                    } else if id % 389 == 77 {
+                        // last chunk above 1 MiB (sparse cut set: dense around its end)
+                        base = huge_chunk_base(&mut r);
                     }
                 }
                 cuts_job(base, seed)
@@ -421,6 +424,28 @@ pub fn cells_job(base: Base, inflate_only: bool) -> JobKind {
     // count x chunk size x frame count), because a bound derived from one declared field may be
     // "checked" only against another declared field.
     let mut pairs = Vec::new();
+    if !inflate_only {
+        // pairs of container-level fields at their extremes (0 / type maximum): a bound taken from
+        // one declared field may be "checked" only against another declared field
+        let container: Vec<usize> = fields
+            .iter()
+            .enumerate()
+            .filter(|(i, f)| *i < nint && matches!((f.chunk, f.name), ("header", "frames") | ("frame", "frame-bytes") | ("frame", "old-chunks") | ("frame", "new-chunks") | ("chunk", "chunk-size")))
+            .map(|(i, _)| i)
+            .take(10)
+            .collect();
+        for a in 0..container.len() {
+            for b in a + 1..container.len() {
+                let (fa, fb) = (&fields[container[a]], &fields[container[b]]);
+                let ext = |f: &format::Field| -> [u64; 3] { [0, (1u64 << (8 * f.width)) - 1, 15] };
+                for va in ext(fa) {
+                    for vb in ext(fb) {
+                        pairs.push(([(container[a], va), (container[b], vb)], false));
+                    }
+                }
+            }
+        }
+    }
     if inflate_only {
         let container: Vec<usize> = fields
             .iter()
@@ -590,6 +615,10 @@ fn special_items(ctx: &Ctx, prop: &str) -> Vec<(String, usize)> {
             for _ in 0..if q { 40 } else { 200 } {
                 v.push(("chunk-size-boundary".into(), 1));
             }
+            for n in if q { vec![4usize, 8] } else { vec![4, 8, 16, 32] } {
+                v.push(("tileset-bomb".into(), n));
+                v.push(("tileset-bomb".into(), n));
+            }
             for n in if q { vec![5000usize, 5003] } else { vec![5000, 5003, 65_532, 65_535] } {
                 v.push(("link-chain".into(), n));
             }
@@ -623,7 +652,7 @@ fn special_items(ctx: &Ctx, prop: &str) -> Vec<(String, usize)> {
             for n in if q { vec![50usize] } else { vec![50, 2000] } {
                 v.push(("many-frames-high-layer".into(), n));
             }
-            for n in if q { vec![9000usize, 9001, 30_000, 30_001, 30_002, 30_003] } else { vec![9000, 9001, 30_000, 30_001, 30_002, 30_003, 65_532, 65_533, 65_534, 65_535] } {
+            for n in if q { vec![9000usize, 9001, 30_000, 30_001, 30_002, 30_003, 30_004, 30_005, 304, 305] } else { vec![9000, 9001, 30_000, 30_001, 30_002, 30_003, 30_004, 30_005, 304, 305, 65_526, 65_527, 65_532, 65_533, 65_534, 65_535] } {
                 v.push(("link-chain".into(), n));
             }
             for _ in 0..if q { 8 } else { 60 } {
@@ -652,7 +681,7 @@ fn special_items(ctx: &Ctx, prop: &str) -> Vec<(String, usize)> {
                 }
             }
             for b in spec::BUGS {
-                if !matches!(*b, "deep-nesting" | "deep-nesting-closed" | "many-layers" | "many-tags" | "many-frames-high-layer" | "deflate-bomb" | "tilemap-huge-extent" | "link-chain" | "bomb-with-links" | "tilemap-bomb-with-links" | "many-palette-packets" | "chunk-size-boundary" | "zlib-split-a" | "zlib-split-b" | "palette-shift-a" | "palette-shift-b") {
+                if !matches!(*b, "deep-nesting" | "deep-nesting-closed" | "many-layers" | "many-tags" | "many-frames-high-layer" | "deflate-bomb" | "tilemap-huge-extent" | "link-chain" | "bomb-with-links" | "tilemap-bomb-with-links" | "tileset-bomb" | "many-palette-packets" | "chunk-size-boundary" | "zlib-split-a" | "zlib-split-b" | "palette-shift-a" | "palette-shift-b") {
                     for _ in 0..if q { 2 } else { 12 } {
                         v.push((b.to_string(), 1));
                     }
@@ -1081,7 +1110,7 @@ pub fn huge_chunk_base(r: &mut Rng) -> Base {
             w,
             h,
             pixels: px,
-            compressed: r.chance(1, 4),
+            compressed: r.chance(1, 2),
             level: 1,
         },
         ud: None,
